@@ -199,6 +199,18 @@ theorem file_open_never_panics (file : List UInt8) (start : Nat) (site : String)
     fileOpen file start ≠ .panic site := by
   rw [fileOpen_eq]; exact reader_new_never_panics _ site
 
+/-- **`debug_dump` is total** on every accepted file (debug logging enabled: `item_type` for
+every type, `item` for every item of every type range, `read_data` for every data block), for a
+zlib that honours its contract: the first `read_data` error or `Ok`, never a panic. -/
+theorem accepted_debug_dump (bytes : List UInt8) (r : Reader) (h : Reader.new bytes = .ok r)
+    (inflate : Nat → List UInt8 → Option (List UInt8))
+    (hz : ∀ n src out, inflate n src = some out → out.length ≤ n) (site : String) :
+    r.debugDump inflate ≠ .panic site := by
+  rcases new_spec bytes with ⟨e, he⟩ | ⟨r', hr, inv, _⟩
+  · rw [he] at h; cases h
+  · rw [hr] at h; cases h
+    exact debugDump_no_panic inv inflate hz site
+
 /-! ## Callbacks that fail (`raw::CallbackError`) -/
 
 /-- **I/O errors of the callbacks.**  If any of the callback calls of `Reader::new` (`read` ×5–6,
